@@ -68,7 +68,11 @@ def foreign_dict(snap):
         dtype = _plain(p["dtype"])
         vals = [_plain(v) for v in p["values"]]
         if dtype and dtype.endswith("-tuple"):
-            d["value"] = "[" + ",".join("(" + ";".join(v) + ")" for v in vals) + "]" if vals else []
+            texts = ["(" + ";".join(v) + ")" for v in vals]
+            if any("," in t or '"' in t or "\n" in t for t in texts):
+                d["value"] = texts          # the bracketed one-string form separates tuples by commas: a list of tuple texts
+            else:
+                d["value"] = "[" + ",".join(texts) + "]" if vals else []
         else:
             d["value"] = vals
         if dtype:
